@@ -1,0 +1,30 @@
+//go:build verif
+
+package fsnotify
+
+// Hooks for the verification machinery in /verif; compiled only with -tags verif.
+// Add-only: nothing here changes the behaviour of the library.
+
+const (
+	VerifUnportableOpen       = xUnportableOpen
+	VerifUnportableRead       = xUnportableRead
+	VerifUnportableCloseWrite = xUnportableCloseWrite
+	VerifUnportableCloseRead  = xUnportableCloseRead
+)
+
+// VerifAddOpt re-exports the option type so that a harness can build option lists.
+type VerifAddOpt = addOpt
+
+func VerifWithOps(op Op) VerifAddOpt  { return withOps(op) }
+func VerifWithNoFollow() VerifAddOpt  { return withNoFollow() }
+func VerifWithCreate() VerifAddOpt    { return withCreate() }
+func VerifDefaultOps() Op             { return defaultOpts.op }
+func VerifSetRecurse(on bool)         { enableRecurse = on }
+func VerifRenamedFrom(e Event) string { return e.renamedFrom }
+func VerifSupports(w *Watcher, op Op) bool {
+	return w.xSupports(op)
+}
+
+func VerifMakeEvent(name string, op Op, from string) Event {
+	return Event{Name: name, Op: op, renamedFrom: from}
+}
